@@ -16,6 +16,7 @@ MCWeekStarts == {0, 6}
 \* set(hour=2, minute=30): into GapOverlap's gap / overlap on the right days; set(day=14): onto MidnightGap's skipped midnight
 MCOverrides == {<<-1, -1, -1, 2, 30, -1, -1>>, <<-1, 10, 14, 0, 0, 0, 0>>}
 MCWeekdays == {0, 6}
+MCRangeSteps == {<<"hours", 1>>, <<"days", 1>>, <<"months", 1>>}
 SimWeekdays == 0..6
 SimWeekStarts == 0..6
 MCModUnits == {"hour", "day", "week"}
